@@ -531,8 +531,10 @@ namespace ST
     inline void format_type(const ST::format_spec &format, ST::format_writer &output,
                             const char8_t *text)
     {
-        ST::format_string(format, output, reinterpret_cast<const char *>(text),
-                          std::char_traits<char8_t>::length(text));
+        if (text) {
+            ST::format_string(format, output, reinterpret_cast<const char *>(text),
+                              std::char_traits<char8_t>::length(text));
+        }
     }
 #endif
 
